@@ -12,6 +12,16 @@ def sh(cmd, **kw):
 
 
 def main():
+    import os, tempfile, shutil
+    scratch = tempfile.mkdtemp(prefix="seedtest_evidence_")
+    os.environ["VERIF_EVIDENCE_DIR"] = scratch          # checks run against a changed tree must not rewrite /verif/evidence
+    try:
+        _main()
+    finally:
+        shutil.rmtree(scratch, ignore_errors=True)
+
+
+def _main():
     ids = sys.argv[1:] or sorted(p.name for p in (V / "seeded").iterdir() if (p / "patch.diff").exists())
     assert sh("git -C /repo status --porcelain").stdout.strip() == "", "/repo is not clean"
     for i in ids:
